@@ -299,29 +299,33 @@ def run(cx):
             else:
                 oks = len(fs) == 3 and fs[0] == fs[2] and fs[1] == 0
             r.check(oks and (cnt is None or len(fs) == cnt), f"score[{name}]/documented-shape", (em.rel, em.const("_BUZZER_MELODIES").lineno), f"documented as {shape}{'' if cnt is None else f' with {cnt} notes'}; table has {len(fs)} notes {fs[:6]}")
-    # the parser stores the *validated* name: the expression tested for membership in the table is the one stored in the
-    # node (the emitter looks node.melody up verbatim and emits nothing for a name it does not know)
-    psl = pm.func("_parse_simple_lines")
-    ctor = [c for c in walk_local(psl) if isinstance(c, ast.Call) and call_name(c) == "BuzzerMelody"]
-    if len(ctor) != 1:
-        raise AnalysisError(f"expected one BuzzerMelody(...) construction in the parser, found {len(ctor)}")
-    stored = kwarg(ctor[0], "melody")
-    if stored is None:
-        raise AnalysisError("BuzzerMelody(...) is built without melody=")
-    guards = []
-    for n in walk_local(psl):
-        if isinstance(n, ast.If) and isinstance(n.test, ast.Compare) and len(n.test.ops) == 1 and isinstance(n.test.ops[0], ast.NotIn) \
-                and norm(n.test.comparators[0]) == "_BUZZER_MELODIES" and any(isinstance(x, ast.Raise) for x in n.body):
-            guards.append(n)
-    r.check(bool(guards), "parser/unknown-melody-rejected", (pm, ctor[0]), "no `if <name> not in _BUZZER_MELODIES: raise` guards the melody arm")
-    em_lookup = [c for c in ast.walk(em.func("_emit_block")) if isinstance(c, ast.Call) and isinstance(c.func, ast.Attribute) and c.func.attr == "get" and norm(c.func.value) == "_BUZZER_MELODIES"]
-    em_key = norm(em_lookup[0].args[0]) if em_lookup and em_lookup[0].args else None
-    for g in guards:
-        tested = norm(g.test.left)
-        same = tested == norm(stored)
-        # or: both sides normalise the stored spelling the same way
-        both = em_key is not None and tested == em_key.replace("node.melody", norm(stored))
-        r.check(same or both, "parser/stored-melody=validated-melody", (pm, g), f"membership is tested on `{tested}` but the node stores `{norm(stored)}` and the emitter looks up `{em_key}`: a name can pass validation and then find no score (the call would emit nothing)")
+    # the parser stores a name the emitter knows: scripts with every spelling of a melody name (exact, other case, padded,
+    # unknown) are parsed; each is either refused with ValueError or stored as a name for which the emitter plays the score
+    # (a name that passes validation and then finds no score would make the call vanish)
+    from .. import pe as _pe
+    names_tbl = sorted(lit.table(em, "_BUZZER_MELODIES"))
+    cls_, _f = _pe.ir_classes()
+    spellings = []
+    for nm_ in names_tbl:
+        spellings += [nm_, nm_.upper(), nm_.capitalize(), f" {nm_} ", nm_ + "x"]
+    spellings += ["nope", "", "none"]
+    for sp in spellings:
+        src = f"from Reduino.Actuators import Buzzer\nbuz = Buzzer(8)\nbuz.melody({sp!r})\nwhile True:\n    z0 = 0\n"
+        try:
+            _it, out = _pe.parse_source(src)
+        except dl.Unsupported as e:
+            raise AnalysisError(f"parse() left the evaluable subset on melody({sp!r}): {e}")
+        if out.kind != "return":
+            r.check(out.value == "ValueError", f"parser/melody[{sp}]-refused-with-ValueError", (pm, pm.func("parse")), f"melody({sp!r}): parse() raises {out.value}")
+            continue
+        nodes = [n_ for n_ in out.value.setup_body if type(n_).__name__ == "BuzzerMelody"]
+        if len(nodes) != 1:
+            r.fail(f"parser/melody[{sp}]-kept", (pm, pm.func("parse")), f"melody({sp!r}) is accepted but {len(nodes)} BuzzerMelody nodes are built")
+            continue
+        with_ = _pe.emit_program(setup=[l2.decl_node("Buzzer"), cls_["BuzzerMelody"](name="dev", melody=nodes[0].melody, tempo=None)], loop=[])
+        without = _pe.emit_program(setup=[l2.decl_node("Buzzer")], loop=[])
+        plays = not with_.raised and with_.text != without.text and "tone(" in with_.text
+        r.check(plays, "parser/stored-melody=validated-melody", (pm, pm.func("parse")), f"melody({sp!r}) passes the parser, which stores {nodes[0].melody!r}; the emitter plays nothing for that name: the call vanishes from the firmware", sample=f"melody({sp!r}) -> {nodes[0].melody!r}")
 
     # ---- C16-BIND (shared with C08) --------------------------------------------------------------
     from . import c08
